@@ -205,7 +205,7 @@ def run_model(casefile, timeout=1800):
 
 def canon_res(r):
     """Panic kinds are only known to the model."""
-    return "Panic" if r.startswith("Panic") else r
+    return "Panic" if "Panic" in r else r
 
 def split_trace(t):
     """trace column -> (trace, flags) where flags are the !OOB/!MISALIGNED markers"""
